@@ -340,3 +340,94 @@ def compare(run, case, outs, model_out):
         if rest_i and rest_i[-1].startswith("g"):
             rest_i, rest_m = rest_i[:-1], rest_m[:len(rest_i) - 1]
         st["agree" if rest_i == rest_m else "differ"] += 1
+
+
+# ----------------------------------------------------------------------------- SIZE THRESHOLD: a region above 2^20 space-magnitude bins
+_BIG = {}
+
+
+def big_region():
+    """40 x 30 cells x 900 magnitude bins = 1 080 000 > 2^20 space-magnitude bins; cheap to build (few cells, many magnitude bins)"""
+    from csep.core.regions import CartesianGrid2D
+    if "r" not in _BIG:
+        o = numpy.array([[0.1 * i, 0.1 * j] for j in range(30) for i in range(40)])
+        mags = numpy.round(2.0 + 0.01 * numpy.arange(900), 2)
+        r = CartesianGrid2D.from_origins(o, dh=0.1, magnitudes=mags)
+        idx = r.get_index_of(o[:, 0] + 0.05, o[:, 1] + 0.05)
+        origins = numpy.zeros_like(o)
+        for k, i in enumerate(idx):
+            origins[int(i)] = o[k]
+        _BIG["r"] = (r, origins, mags)
+    return _BIG["r"]
+
+
+def gen_bigregion(rng):
+    """few catalogs, sparse events, with SEVERAL events of one catalog in the same cell and magnitude bin (aftershock clusters; also
+    in the open-ended last magnitude bin)"""
+    ncat = rng.randint(2, 3)
+    cats = []
+    for _ in range(ncat):
+        evs = []
+        for _ in range(rng.randint(1, 4)):
+            cell, mb = rng.randrange(1200), rng.choice([0, 1, 250, 898, 899, 899])
+            for _ in range(rng.choice([1, 2, 2, 3])):                      # duplicates in one bin
+                evs.append([cell, mb, rng.choice([0.0, 0.004]) if mb < 899 else rng.choice([0.0, 0.5, 2.0])])
+        rng.shuffle(evs)
+        cats.append(evs)
+    return dict(kind="bigregion", cats=cats, source=rng.choice(["list", "gen-store", "tuple"]),
+                ops=[rng.choice(["R", "S", "M", "T"]) for _ in range(rng.randint(2, 4))])
+
+
+def do_bigregion(run, drv, pending, case, tmpdir):
+    from csep.core.catalogs import CSEPCatalog
+    from csep.core.forecasts import CatalogForecast
+    region, origins, mags = big_region()
+    n = len(case["cats"])
+    tot = {}
+    objs = []
+    for ci, evs in enumerate(case["cats"]):
+        rows = []
+        for ei, (cell, mb, dm) in enumerate(evs):
+            rows.append((f"c{ci}e{ei}", 1262304000000 + 1000 * (100 * ci + ei), float(origins[cell][1]) + 0.05,
+                         float(origins[cell][0]) + 0.05, 10.0, float(mags[mb]) + dm + 0.002))
+            tot[(cell, mb)] = tot.get((cell, mb), 0) + 1
+        objs.append(CSEPCatalog(data=rows, catalog_id=ci))
+    src = case["source"]
+    cats = objs if src == "list" else (tuple(objs) if src == "tuple" else (c for c in objs))
+    fore = CatalogForecast(catalogs=cats, region=region, name="big-region")
+    run.case(case, ("bigregion", json.dumps(case["cats"]), tuple(case["ops"])))
+    run.count(f"bigregion:{src}:{region.num_nodes * len(mags)} bins")
+    for k, op in enumerate(case["ops"]):
+        try:
+            if op == "R":
+                arr = numpy.asarray(fore.get_expected_rates().data, dtype=float)
+                nz = {(int(i), int(j)): float(arr[i, j]) for i, j in zip(*numpy.nonzero(arr))}
+                exp = {b: c / n for b, c in tot.items()}
+            elif op == "S":
+                arr = numpy.asarray(fore.spatial_counts(), dtype=float)
+                nz = {int(i): float(arr[i]) for i in numpy.nonzero(arr)[0]}
+                exp = {}
+                for (c, _m), v in tot.items():
+                    exp[c] = exp.get(c, 0) + v / n
+            elif op == "M":
+                arr = numpy.asarray(fore.magnitude_counts(), dtype=float)
+                nz = {int(i): float(arr[i]) for i in numpy.nonzero(arr)[0]}
+                exp = {}
+                for (_c, m), v in tot.items():
+                    exp[m] = exp.get(m, 0) + v / n
+            else:
+                nz = {0: float(fore.get_expected_rates().sum())}
+                exp = {0: sum(tot.values()) / n}
+        except Exception as e:
+            run.oracle_failure(case, f"op {k} ({op}) on a region of {region.num_nodes * len(mags)} space-magnitude bins raised "
+                                     f"{type(e).__name__}: {e}")
+            return
+        if set(nz) != set(exp) or any(abs(nz[b] - exp[b]) > 1e-12 * max(1.0, exp[b]) for b in exp):
+            bad = sorted(set(nz) ^ set(exp), key=str)[:3] or [b for b in exp if abs(nz[b] - exp[b]) > 1e-12][:3]
+            run.oracle_failure(case, f"op {k} ({op}) on a region of {region.num_nodes * len(mags)} space-magnitude bins: bins {bad} hold "
+                                     f"{[nz.get(b) for b in bad]}, the per-bin means of the catalogs' counts are {[exp.get(b) for b in bad]} "
+                                     f"(several events of one catalog share a bin)")
+            return
+        if fore.n_cat != n:
+            run.oracle_failure(case, f"op {k}: n_cat is {fore.n_cat}, the forecast has {n} catalogs")
+            return
